@@ -3,7 +3,7 @@
    check it makes looks at the input text only; KeyBlock.unwrap starts with a
    load.  No cipher hypothesis is needed. *)
 From Coq Require Import Lia.
-From Psec Require Import Lib.Base Cipher.Cipher Model.Tr31.
+From Psec Require Import Lib.Base Cipher.Cipher Cipher.Toy Model.Tr31.
 Open Scope N_scope.
 
 (* ------------------------------------------------------------------ *)
@@ -218,3 +218,29 @@ Lemma history_example cd ca kbpk :
   step cd ca st (OpLoad ex_hdr2) =
     (mkState kbpk (mkHeader [65] [68; 48] [65] [78] [48; 48] [69] [48; 48] []), OutNat 16).
 Proof. vm_compute. repeat split. Qed.
+
+(* unwrap a version-D block, fail on garbage, then unwrap a version-B block:
+   same key and same object as a fresh KeyBlock (toy ciphers, blocks produced by
+   the model's own wrap) *)
+Definition ex_kbpk : bytes := repeat 49 16.
+Definition ex_whdr_b : str := [66; 48; 48; 48; 48; 80; 48; 84; 69; 48; 48; 78; 48; 48; 48; 48].
+Definition ex_whdr_d : str := [68; 48; 48; 48; 48; 68; 48; 65; 69; 48; 48; 69; 48; 48; 48; 48].
+Definition ex_key_b : bytes := repeat 238 16.
+Definition ex_key_d : bytes := repeat 17 24.
+Definition ex_tape_b : bytes := [1; 2; 3; 4; 5; 6; 7; 8; 9; 10; 11; 12; 13; 14].
+Definition ex_tape_dd : bytes := [1; 2; 3; 4; 5; 6; 7; 8; 9; 10; 11; 12; 13; 14; 15; 16; 17; 18; 19; 20; 21; 22].
+
+Lemma unwrap_history_example :
+  match wrap_str toy_tdes toy_aes ex_kbpk ex_whdr_b ex_key_b None ex_tape_b,
+        wrap_str toy_tdes toy_aes ex_kbpk ex_whdr_d ex_key_d None ex_tape_dd with
+  | Ok blk_b, Ok blk_d =>
+      let fresh := mkState ex_kbpk default_header in
+      let st := fst (run toy_tdes toy_aes fresh [OpUnwrap blk_d; OpUnwrap ex_bad]) in
+      snd (run toy_tdes toy_aes fresh [OpUnwrap blk_d; OpUnwrap ex_bad]) =
+        [OutBytes ex_key_d; OutErr HeaderError] /\
+      st_header st <> default_header /\
+      step toy_tdes toy_aes st (OpUnwrap blk_b) = step toy_tdes toy_aes fresh (OpUnwrap blk_b) /\
+      snd (step toy_tdes toy_aes st (OpUnwrap blk_b)) = OutBytes ex_key_b
+  | _, _ => False
+  end.
+Proof. vm_compute. repeat split. discriminate. Qed.
